@@ -178,11 +178,14 @@ func soa(zone string) dns.RR {
 		Ns: "ns." + zone, Mbox: "h." + zone, Serial: 1, Refresh: 3600, Retry: 600, Expire: 86400, Minttl: 120}
 }
 
+// one validity window per process: the twins are served at different instants and must see the same signature bytes
+var sigEpoch = time.Now().Truncate(time.Hour)
+
 func fakeSig(name string, covered uint16) dns.RR {
 	return &dns.RRSIG{
 		Hdr:         dns.RR_Header{Name: name, Rrtype: dns.TypeRRSIG, Class: dns.ClassINET, Ttl: 300},
 		TypeCovered: covered, Algorithm: dns.ECDSAP256SHA256, Labels: uint8(dns.CountLabel(name)), OrigTtl: 300,
-		Expiration: uint32(time.Now().Add(24 * time.Hour).Unix()), Inception: uint32(time.Now().Add(-time.Hour).Unix()),
+		Expiration: uint32(sigEpoch.Add(24 * time.Hour).Unix()), Inception: uint32(sigEpoch.Add(-time.Hour).Unix()),
 		KeyTag: 12345, SignerName: "verif.test.", Signature: "MEQCIF5edm5vY2Vhbm9ncmFwaHkgaXMgZnVuIQIgTm90QVJlYWxTaWc=",
 	}
 }
@@ -207,6 +210,18 @@ func respond(_ context.Context, _ *middleware.Chain, req *dns.Msg) *dns.Msg {
 		resp.Ns = []dns.RR{soa("verif.test.")}
 	case "nodata":
 		resp.Ns = []dns.RR{soa("verif.test.")}
+	case "nxsig", "nodatasig":
+		// validated denials whose only DNSSEC records sit in the authority section (signed SOA, NSEC + RRSIG); the
+		// NSEC range is private to this name, so an aggressive-denial index cannot answer another behaviour's question
+		lab := strings.ToLower(strings.SplitN(name, ".", 2)[0])
+		owner, next, bitmap := name, "\\000."+strings.ToLower(name), []uint16{dns.TypeTXT, dns.TypeRRSIG, dns.TypeNSEC}
+		if contentOf(name) == "nxsig" {
+			resp.Rcode = dns.RcodeNameError
+			owner, next, bitmap = lab[:len(lab)-1]+string(lab[len(lab)-1]-1)+"~.verif.test.", lab+"!.verif.test.", []uint16{dns.TypeA, dns.TypeRRSIG, dns.TypeNSEC}
+		}
+		nsec := &dns.NSEC{Hdr: dns.RR_Header{Name: owner, Rrtype: dns.TypeNSEC, Class: dns.ClassINET, Ttl: 120}, NextDomain: next, TypeBitMap: bitmap}
+		resp.Ns = []dns.RR{soa("verif.test."), fakeSig("verif.test.", dns.TypeSOA), nsec, fakeSig(owner, dns.TypeNSEC)}
+		resp.AuthenticatedData = true
 	case "ede":
 		resp.Answer = []dns.RR{a(name, 3)}
 		o := &dns.OPT{Hdr: dns.RR_Header{Name: ".", Rrtype: dns.TypeOPT}}
@@ -615,7 +630,10 @@ func contract(p absPkt, q built, reply []byte) (string, string) {
 		return "opcode", fmt.Sprintf("reply opcode %d, query opcode %d", int(fl>>11)&0xF, p.Opcode)
 	}
 	rcodeLow := int(fl & 0xF)
-	bare := len(reply) == 12 && (rcodeLow == dns.RcodeFormatError || rcodeLow == dns.RcodeNotImplemented)
+	// a bare header claims no section: twelve bytes that announce a question or records they do not hold are
+	// neither a bare-header rejection nor a message (they fall through to the decode below)
+	bare := len(reply) == 12 && (rcodeLow == dns.RcodeFormatError || rcodeLow == dns.RcodeNotImplemented) &&
+		binary.BigEndian.Uint64(reply[4:]) == 0
 	if bare {
 		return "", ""
 	}
